@@ -10,7 +10,7 @@
 EXTENDS Integers, Sequences, TLC, Json
 
 FullAlphabet == <<"a", " ", "\"", "'", "$", "`", "\\", "\n", "*", "!", "#", ";", "&", "|", "(",
-                  "~", "{", "\t", "é", "<FF>", "7", "=", "_", ":", "/">>
+                  "~", "{", "\t", "é", "<FF>", "7", "=", "_", ":", "/", "\r">>
 SpecialAlphabet == <<"a", "\"", "$", "`", "\\", "\n", "'", "<FF>", "7">>
 CONSTANT Alphabet
 Invalid == {"<FF>", "<80>"}
